@@ -20,7 +20,9 @@ func genC12Readers(r *Rng, tier string) *Plan {
 	for c := 0; c < n; c++ {
 		key := fmt.Sprintf("own%d", c)
 		m := r.Range(3, 40)
-		el := func(i int) string { return fmt.Sprintf("c%d-element-%03d-%s", c, i, strings.Repeat(string(rune('a'+c)), r.Range(0, 30))) }
+		el := func(i int) string {
+			return fmt.Sprintf("c%d-element-%03d-%s", c, i, strings.Repeat(string(rune('a'+c)), r.Range(0, 30)))
+		}
 		var seed, read []string
 		switch r.Intn(4) {
 		case 0:
